@@ -48,6 +48,8 @@ let run () =
     | ["tokz"; h; d] -> let s = hb h in
         pl (res_str (fun l -> String.concat " " (string_of_int (List.length l) :: List.map hx l))
                          (qstrtokenizer (fuel_for s) (s @ [N0]) (hb d)))
+    | ["comma"; n] -> pl (res_str hx (qstr_comma_number (z_of_int (istr n))))
+    | ["spec"; "comma"; n] -> pl (hx (comma_spec (z_of_int (istr n))))
     (* ---- reference definitions ---- *)
     | ["spec"; "trim"; h] -> pl (hx (trim_spec (hb h)))
     | ["spec"; "trimh"; h] -> pl (hx (trim_head_spec (hb h)))
